@@ -1,6 +1,6 @@
 //! Contains connection related API.
 
-use core::{fmt::Debug, str::from_utf8_unchecked};
+use core::fmt::Debug;
 
 use crate::{varlink_service, Result};
 
@@ -11,7 +11,6 @@ use super::{
 };
 use alloc::vec::Vec;
 use serde::Deserialize;
-use serde_json::Deserializer;
 
 /// A connection that can only be used for reading.
 ///
@@ -119,31 +118,45 @@ impl<Read: ReadHalf> ReadConnection<Read> {
     where
         M: Deserialize<'m> + Debug,
     {
-        self.read_from_socket().await?;
+        // Messages are delimited by the null bytes, not by where the JSON parser happens to stop:
+        // a message that fails to parse (or has whitespace around it) must still consume exactly
+        // its own frame.
+        let (start, end) = loop {
+            self.read_from_socket().await?;
 
-        let mut stream = Deserializer::from_slice(&self.buffer[self.msg_pos..]).into_iter::<M>();
-        let msg = stream.next();
-        let null_index = self.msg_pos + stream.byte_offset();
-        let buffer = &self.buffer[self.msg_pos..null_index];
-        if self.buffer[null_index + 1] == b'\0' {
-            // This means we're reading the last message and can now reset the indices.
-            self.read_pos = 0;
-            self.msg_pos = 0;
-        } else {
-            self.msg_pos = null_index + 1;
-        }
+            let start = self.msg_pos;
+            // `read_from_socket` guarantees at least one null byte between the two cursors.
+            let end = match self.buffer[start..self.read_pos]
+                .iter()
+                .position(|&b| b == b'\0')
+            {
+                Some(len) => start + len,
+                None => return Err(crate::Error::UnexpectedEof),
+            };
+            if end + 1 == self.read_pos {
+                // This means we're reading the last message and can now reset the indices.
+                self.read_pos = 0;
+                self.msg_pos = 0;
+            } else {
+                self.msg_pos = end + 1;
+            }
+            if end > start {
+                break (start, end);
+            }
+            // An empty frame carries no message; skip it.
+        };
 
-        match msg {
-            Some(Ok(msg)) => {
-                // SAFETY: Since the parsing from JSON already succeeded, we can be sure that the
-                // buffer contains a valid UTF-8 string.
-                trace!("connection {}: received a message: {}", self.id, unsafe {
-                    from_utf8_unchecked(buffer)
-                });
+        let buffer = &self.buffer[start..end];
+        match serde_json::from_slice::<M>(buffer) {
+            Ok(msg) => {
+                trace!(
+                    "connection {}: received a message: {}",
+                    self.id,
+                    core::str::from_utf8(buffer).unwrap_or("<invalid UTF-8>")
+                );
                 Ok(msg)
             }
-            Some(Err(e)) => Err(e.into()),
-            None => Err(crate::Error::UnexpectedEof),
+            Err(e) => Err(e.into()),
         }
     }
 
